@@ -8,6 +8,7 @@ import datetime
 import enum
 import io
 import logging
+import os
 import re
 import traceback
 from typing import Dict, List, Literal, Optional, Tuple, Union
@@ -128,6 +129,14 @@ class SecOperation:
     ''' Derived reference to a key '''
     x5chain: Optional[List[bytes]] = None
     ''' Derived DER certificate chain '''
+
+    def next_content_iv(self) -> bytes:
+        ''' Get the IV for the next encryption: the next configured one
+        or, when none is left, a random one (96 bits as used by AES-GCM).
+        '''
+        if self.content_iv:
+            return self.content_iv.pop(0)
+        return os.urandom(12)
 
 
 @dataclass
@@ -989,7 +998,7 @@ class CoseContext(AbstractContext):
                         },
                         uhdr={
                             headers.KID: sop.priv_key.kid,
-                            headers.IV: sop.content_iv.pop(0),
+                            headers.IV: sop.next_content_iv(),
                         },
                         payload=target_plaintext,
                         # Non-encoded parameters
@@ -1026,7 +1035,7 @@ class CoseContext(AbstractContext):
                             headers.Algorithm: sop.content_alg,
                         },
                         uhdr={
-                            headers.IV: sop.content_iv.pop(0),
+                            headers.IV: sop.next_content_iv(),
                         },
                         payload=target_plaintext,
                         recipients=[recip],
